@@ -11,18 +11,20 @@ LEVEL = "exploration"
 
 
 def run(res):
-    res.cov["rule"] = ("cases = 8-bit contents x sizes (incl. non multiples of 8) x presets x temporal filtering on/off x GOP; "
+    res.cov["rule"] = ("cases = 8-bit and 10-bit contents x sizes (incl. non multiples of 8) x presets x temporal filtering on/off x GOP; "
                        "every packet contributes three compared values; non-trivial = run with at least one hidden/show-existing picture")
     res.assumptions += ["the source is regenerated in the decoder-side harness from the shared deterministic content generator",
                         "picture k of the independent decoder's output is the picture displayed by packet k (checked by C02/C03)"]
     rng = random.Random(res.seed * 59 + 10)
     cs = []
 
-    def add(n, sets, content, w, h, cseed=1):
+    def add(n, sets, content, w, h, cseed=1, bits=8):
         s = {"enc_mode": 8, "logical_processors": 2, "stat_report": 1}
         s.update(sets)
-        cs.append({"args": ["-n", str(n), "-w", str(w), "-h", str(h), "--content", content, "--cseed", str(cseed)], "sets": s, "n": n, "w": w, "h": h,
-                   "dec_args": ["--src", "%s,%d,8" % (content, cseed)]})
+        if bits == 10:
+            s["encoder_bit_depth"] = 10
+        cs.append({"args": ["-n", str(n), "-w", str(w), "-h", str(h), "--bits", str(bits), "--content", content, "--cseed", str(cseed)], "sets": s,
+                   "n": n, "w": w, "h": h, "bits": bits, "dec_args": ["--src", "%s,%d,%d" % (content, cseed, bits)]})
     add(17, {}, "motion", 64, 64)
     add(12, {"tf_level": 0}, "noise", 66, 70)
     add(12, {"tf_level": 1}, "noise", 66, 70)
@@ -31,6 +33,9 @@ def run(res):
     add(9, {"enc_mode": 6}, "motion", 128, 128)
     add(17, {"hierarchical_levels": 3, "intra_period_length": 7, "logical_processors": 4}, "edges", 96, 64)
     add(10, {"rate_control_mode": 1, "target_bit_rate": 100000, "logical_processors": 1}, "motion", 176, 144)
+    # 10-bit input (a separate statistics path in the encoder)
+    add(12, {}, "motion", 96, 80, bits=10)
+    add(9, {"qp": 30, "hierarchical_levels": 3}, "noise", 70, 66, bits=10)
     if res.tier == "thorough":
         for i in range(40):
             add(rng.choice([5, 9, 17, 26]), {"enc_mode": rng.choice([8, 7, 6, 5, 4]), "qp": rng.choice([5, 25, 45, 63]), "tf_level": rng.choice([0, 1, 2]),
